@@ -75,15 +75,16 @@ func failingClauses(v string) (fails []string, ok bool) {
 	return fails, true
 }
 
-// Stable signatures of the two loader defects that are recorded, not repaired:
+// Stable signature of the loader defect that is recorded, not repaired:
 //   - a builtin directive may be redeclared any number of times and the last declaration wins (R7b):
 //     whenever S.uniqueDirectiveNames is among the failing clauses of an accepted document, the other
-//     failing clauses are consequences of the overwritten definition and are not reported separately;
-//   - the kind of a root operation type is not checked (`input Query {…}` receives __schema/__type):
-//     whenever rootTypesAreObjects fails on a loaded schema, the other failing clauses are consequences.
+//     failing clauses are consequences of the overwritten definition and are not reported separately.
+//
+// (The second one, "the kind of a root operation type is not checked", is repaired: the loader's last
+// check rejects non-object roots, `S.rootTypesAreObjects` is a clause of WellFormed, and a loaded
+// schema on which `rootTypesAreObjects` fails is a live violation like any other loaded-schema clause.)
 const (
 	SigRedeclaredBuiltin = "go-accepts-spec-rejects:S.uniqueDirectiveNames"
-	SigNonObjectRoot     = "loaded-schema-violates:non-object-root-type"
 )
 
 func containsStr(xs []string, x string) bool {
@@ -143,10 +144,7 @@ func (c *Ctx) specLoad(cases []LoadCase) {
 		}
 		if kind[k] == 'c' {
 			st.closedChecked++
-			switch {
-			case containsStr(fails, "rootTypesAreObjects"):
-				st.add(SigNonObjectRoot, cs.Sources, r)
-			case len(fails) > 0:
+			if len(fails) > 0 {
 				st.add("loaded-schema-violates:"+strings.Join(fails, "+"), cs.Sources, r)
 			}
 			continue
